@@ -31,6 +31,7 @@ package main
 
 import (
 	"fmt"
+	"sort"
 	"strings"
 	"time"
 
@@ -99,7 +100,13 @@ func failClosed(c *harness.Case, u *calcgen.Universe, s calcgen.State, sh *shado
 			listed[p] = "host endpoint " + id
 		}
 	}
-	for p, by := range listed {
+	names := make([]string, 0, len(listed))
+	for p := range listed {
+		names = append(names, p)
+	}
+	sort.Strings(names)
+	for _, p := range names {
+		by := listed[p]
 		emitted, ok := sh.State.Profiles[p]
 		if !ok {
 			continue // a C02 matter (endpoint references a profile the dataplane lacks)
@@ -114,7 +121,8 @@ func failClosed(c *harness.Case, u *calcgen.Universe, s calcgen.State, sh *shado
 			continue
 		}
 		c.Count("missing_profile_judgements", 1)
-		for dir, rs := range map[string][]*proto.Rule{"inbound": emitted.InboundRules, "outbound": emitted.OutboundRules} {
+		for i, rs := range [][]*proto.Rule{emitted.InboundRules, emitted.OutboundRules} {
+			dir := [...]string{"inbound", "outbound"}[i]
 			ok, why, err := calcgen.DeniesAll(rs, sh.State.IPSets)
 			if err != nil {
 				c.Count("deny_all_unknown", 1)
@@ -224,7 +232,7 @@ func main() {
 		},
 		Cases: func(tier string) int {
 			if tier == "thorough" {
-				return 10000
+				return 6400
 			}
 			return 320
 		},
